@@ -41,7 +41,14 @@ pub const MAX_KIP_INPUT_LEN: usize = 256 * 1024;
 ///
 /// Inputs nested deeper than this are rejected before any parsing work happens,
 /// protecting the recursive-descent parser from stack exhaustion.
-pub const MAX_KIP_NESTING_DEPTH: usize = 64;
+///
+/// The budget is sized by two consumers. A nested `WHERE` block costs tens of
+/// KiB of stack per level in an unoptimized build, and the default 2 MiB of a
+/// spawned (or tokio worker) thread has to hold the whole descent. And the
+/// parsed tree nests two to three JSON levels per source bracket (and per
+/// bracket-free `&&` / `||` term), while `serde_json` stops decoding at 128:
+/// every accepted command has to survive an encode/decode of its tree.
+pub const MAX_KIP_NESTING_DEPTH: usize = 32;
 
 /// Maximum accepted number of operations in a single batch request.
 ///
